@@ -91,6 +91,7 @@ type Config struct {
 	Junk       []byte `json:"junk,omitempty"`      // C03: bytes appended after the cut
 	Workers    [][]Op `json:"workers,omitempty"`   // C05: per-worker op lists
 	Sched      []int  `json:"sched,omitempty"`     // C05: schedule
+	SchedMode  int    `json:"schedmode,omitempty"` // C05: 0 = Sched lists the pick at every yield point; 1 = priority schedule (PCT style): Sched[0..5] worker priorities, then the ticks of the change points
 	NameSet    int    `json:"names,omitempty"`     // which set of collection names the indices refer to
 	Framed     bool   `json:"framed,omitempty"`    // value callbacks store every value with a 4-byte trailer (ItemValLength = len(Val)+4)
 	Masked     bool   `json:"masked,omitempty"`    // value callbacks store every value XOR-masked (same length, different bytes on file)
@@ -265,7 +266,7 @@ func (c Case) String() string {
 		parts = append(parts, fmt.Sprintf("worker%d[%s]", i, strings.Join(ps, "; ")))
 	}
 	if len(c.Cfg.Sched) > 0 {
-		parts = append(parts, fmt.Sprintf("sched%v", c.Cfg.Sched))
+		parts = append(parts, fmt.Sprintf("sched(mode %d)%v", c.Cfg.SchedMode, c.Cfg.Sched))
 	}
 	if c.Cfg.FailAt > 0 {
 		parts = append(parts, fmt.Sprintf("fault(call %d,torn %d)", c.Cfg.FailAt, c.Cfg.Torn))
